@@ -20,6 +20,7 @@ import GoaktVerif.Lemmas.C04.RingMain
 import GoaktVerif.Lemmas.C04.RingTrace2
 import GoaktVerif.Lemmas.C04.SegTrace5
 import GoaktVerif.Lemmas.C04.IntakeValues
+import GoaktVerif.Lemmas.C04.FairInv
 
 namespace GoaktVerif.C04
 open GoaktVerif.Model.C04 GoaktVerif.Spec.C04
@@ -125,6 +126,81 @@ def F8_sched : List Nat := rep 12 0 ++ rep 9 1 ++ rep 23 2 ++ rep 6 0 ++ [2, 2]
 theorem F8_fixed_segmented_no_relink :
     WellFormed F8_progs = true ∧ allDone (runOf (.segmented 2) F8_progs F8_sched) = true ∧
     verdictOf (.segmented 2) F8_progs F8_sched = none := by decide +kernel
+
+/-! ### F9 (open): the fair mailbox counts a message AFTER publishing it
+
+`Enqueue` publishes into the sender's sub-queue, then adds to `length`, then to `pending`.  A late
+activation (a producer saw `pending == 1`, its `CAS:active` runs after the sender was served and
+deactivated again) lists the sender with `pending == 0`; the consumer then takes a message that is
+published but not counted.  Found while attempting the counting invariant
+`length = Σ pending ± in flight`: the invariant is false of the code as it is. -/
+
+def F9_progs : List (List Op) := [[.enq 1 1, .enq 4 1], [.enq 2 1], [.enq 3 1], [.deq, .deq, .deq, .deq, .deq]]
+def F9_sched : List Nat :=
+  rep 10 0 ++ rep 13 3 ++ rep 5 1 ++ rep 6 3 ++ rep 15 3 ++ rep 3 2 ++ rep 5 1 ++ rep 16 3 ++ rep 7 2 ++
+  rep 12 3 ++ rep 5 0 ++ rep 2 3
+
+/-- F9: message 3 is consumed before it is counted (`pending` −1, stored back to 0, then +1 by its
+producer with the sub-queue empty): `pending` stays one too high, the Enqueue of message 4 sees
+`pending == 2` and does not activate the sender.  Message 4 is accepted and never delivered; at the end
+the sender is inactive with `pending = 2`, `length = 1`, and the active list is empty. -/
+theorem F9_fair_pending_drift_strands_sender :
+    WellFormed F9_progs = true ∧ allDone (runOf .fair F9_progs F9_sched) = true ∧
+    -- results are listed latest first
+    ((runOf .fair F9_progs F9_sched).threads.map fun t => t.results) =
+      [[.ok, .ok], [.ok], [.ok], [.none, .none, .val 3, .val 2, .val 1]] ∧
+    (historyOf (runOf .fair F9_progs F9_sched)).drained = [] ∧
+    (historyOf (runOf .fair F9_progs F9_sched)).finalLen = 1 ∧
+    (((runOf .fair F9_progs F9_sched).sh.boxes 1).pending = 2 ∧
+      ((runOf .fair F9_progs F9_sched).sh.boxes 1).active = false) ∧
+    verdictOf .fair F9_progs F9_sched = some "exactly-once" := by decide +kernel
+
+def F9b_progs : List (List Op) :=
+  [[.enq 1 2], [.enq 2 2], [.enq 3 2], [.enq 5 1], [.enq 6 1], [.deq, .deq, .deq, .deq, .deq]]
+def F9b_sched : List Nat :=
+  rep 10 0 ++ rep 13 5 ++ rep 5 1 ++ rep 6 5 ++ rep 15 5 ++ rep 3 2 ++ rep 5 1 ++ rep 16 5 ++ rep 2 3 ++
+  rep 10 4 ++ rep 12 5 ++ rep 3 3 ++ rep 7 2 ++ rep 16 5
+
+/-- F9b: the same uncounted consumption (sender 2) takes `length` to −1 for a while; in that window the
+guard `length > 0` of the nil-branch re-check fails for sender 1, whose counted message 6 is hidden
+behind the unlinked node of message 5: sender 1 is deactivated with `pending = 1` and never served
+again.  Messages 5 and 6 are accepted and never delivered. -/
+theorem F9b_fair_length_dip_strands_other_sender :
+    WellFormed F9b_progs = true ∧ allDone (runOf .fair F9b_progs F9b_sched) = true ∧
+    ((runOf .fair F9b_progs F9b_sched).threads.map fun t => t.results) =
+      [[.ok], [.ok], [.ok], [.ok], [.ok], [.none, .none, .val 3, .val 2, .val 1]] ∧
+    (historyOf (runOf .fair F9b_progs F9b_sched)).drained = [] ∧
+    (historyOf (runOf .fair F9b_progs F9b_sched)).finalLen = 2 ∧
+    (((runOf .fair F9b_progs F9b_sched).sh.boxes 1).pending = 2 ∧
+      ((runOf .fair F9b_progs F9b_sched).sh.boxes 1).active = false) ∧
+    verdictOf .fair F9b_progs F9b_sched = some "exactly-once" := by decide +kernel
+
+def F10_progs : List (List Op) := [[.enq 1 1], [.enq 2 1], [.enq 3 2], [.deq, .deq, .len, .deq, .deq]]
+def F10_sched : List Nat :=
+  rep 10 0 ++ rep 13 3 ++ rep 5 1 ++ rep 6 3 ++ rep 15 3 ++ rep 5 1 ++ rep 10 2 ++ rep 1 3 ++ rep 12 3 ++ rep 15 3
+
+/-- F10 (open): late activation.  The producer of message 2 saw `pending == 1`; its `CAS:active` runs
+after the consumer has delivered 2 and deactivated sender 1, and lists sender 1 with nothing to deliver.
+Message 3 of sender 2 is then enqueued completely and `Len()` answers 1; the next Dequeue pops sender 1
+and answers nil with no enqueue in flight; the one after delivers 3.  (results latest first) -/
+theorem F10_fair_late_activation_spurious_nil :
+    WellFormed F10_progs = true ∧ allDone (runOf .fair F10_progs F10_sched) = true ∧
+    ((runOf .fair F10_progs F10_sched).threads.map fun t => t.results) =
+      [[.ok], [.ok], [.ok], [.val 3, .none, .num 1, .val 2, .val 1]] ∧
+    verdictOf .fair F10_progs F10_sched = some "empty-unsound" := by decide +kernel
+
+/-- the counting facts the repair 240356c relies on ("a counted message of this sender implies
+`length > 0`"; `pending ≥ 0`) are FALSE of the code as it is: a reachable configuration of the F9b run
+has the consumer parked at the re-check of sender 1 (`i4`) with `pending = 1` and `length = 0`, and one of the F9 run has `pending = −1`. -/
+theorem fair_counting_refuted :
+    (∃ c, Reach Fair.algo (initCfg Fair.algo Fair.init F9b_progs) c ∧
+      (c.sh.boxes 1).pending = 1 ∧ c.sh.length = 0 ∧ (c.sh.boxes 1).active = false ∧
+      (c.threads[5]?.bind fun t => t.pc) = some (Fair.PC.i4 1)) ∧
+    (∃ c, Reach Fair.algo (initCfg Fair.algo Fair.init F9_progs) c ∧ (c.sh.boxes 1).pending = -1) := by
+  refine ⟨⟨runSched (initCfg Fair.algo Fair.init F9b_progs) (F9b_sched.take 96), reach_runSched _ _ Reach.init _, ?_⟩,
+    ⟨runSched (initCfg Fair.algo Fair.init F9_progs) (F9_sched.take 69), reach_runSched _ _ Reach.init _, ?_⟩⟩
+  · decide +kernel
+  · decide +kernel
 
 /-- The full property is FALSE of the current code: F2 is inherent to the algorithm of the default
 mailbox (the clause "never reports empty while a completed enqueue has not been dequeued" cannot
@@ -548,6 +624,40 @@ theorem intake_exactly_once (k : Intake.Conf) (ct : Nat) (progs : List (List Op)
       (pushedOf (traceI (initCfg (Intake.algo k) Intake.init progs) sched)) :=
   exactly_once (k := k) ct progs wf sched t ht
 
+/-! ### UnboundedFairMailbox: the activation protocol, for ALL schedules
+
+`FairInv.ActInv c`: every sender with counted messages (`pending > 0`) is active, or some thread is parked
+at a site from which it will still (re)check that sender (the producer between `Add:pending` = 1 and its
+`CAS:active`; the consumer between `Store:active(false)` and its re-check).  Every atomic step of every
+thread preserves it except ONE: the nil-branch re-check executed while `pending > 0`, `active = false` and
+`length ≤ 0` (`FairInv.guardMiss`) — the step the counting identity was meant to exclude and the one the
+witnesses F9/F9b take.  `FairInv.ReachNM` = reachable without such a step.  NOT proved: that an active
+sender is in the active list exactly once (the list structure), and the counting identity itself, which is
+false of the code as it is (`fair_counting_refuted`) and is expected to hold after
+fixes/C04-fair-count-before-publish. -/
+
+theorem fair_activation_protocol (progs : List (List Op)) (c : Cfg Fair.algo)
+    (h : FairInv.ReachNM (initCfg Fair.algo Fair.init progs) c) :
+    ∀ k, (c.sh.boxes k).pending > 0 → (c.sh.boxes k).active = true ∨ FairInv.someoneChecks c k :=
+  FairInv.actInv_reach progs c h
+
+/-- no stranded sender: when all threads have finished (nobody is parked anywhere) and no `guardMiss` step
+was taken, every sender with counted messages is active -/
+theorem fair_no_stranded_sender_when_quiescent (progs : List (List Op)) (c : Cfg Fair.algo)
+    (h : FairInv.ReachNM (initCfg Fair.algo Fair.init progs) c) (hd : allDone c = true) :
+    ∀ k, (c.sh.boxes k).pending > 0 → (c.sh.boxes k).active = true := by
+  intro k hp
+  rcases FairInv.actInv_reach progs c h k hp with ha | hc
+  · exact ha
+  · exact absurd hc (FairInv.quiescent_no_check c hd k)
+
+/-- the sub-queue of sender `k` is an UnboundedMailbox driven by nothing but UnboundedMailbox steps taken
+on behalf of `k`: every step of the fair mailbox leaves it alone or is exactly one step of that mailbox -/
+theorem fair_subqueue_frame (s : Fair.Sh) (pc : Fair.PC) (k : Nat) :
+    ((Fair.exec s pc).1.boxes k).mb = (s.boxes k).mb ∨
+    ∃ upc, pc = .ub k upc ∧ ((Fair.exec s pc).1.boxes k).mb = (Unbounded.exec (s.boxes k).mb upc).1 :=
+  FairInv.subqueue_frame s pc k
+
 /-! ### one citation point: every mailbox kind refines its documented sequential queue
 
 `Refines m` collects, per mailbox kind, the all-schedule theorems above in the form other properties
@@ -619,15 +729,24 @@ def Refines : MB → Prop
         ∀ x rest, Model.C04.Heap.pop (Intake.Conf.ltItem { cap := some cap, stable := true, lt }) c.sh.heap = some (x, rest) →
           (x :: rest).Perm c.sh.heap ∧ ∀ y ∈ rest, lt y.1 x.1 = false ∧ (lt x.1 y.1 = true ∨ x.2 ≤ y.2))
   | .fair =>
-    -- composite (per-sender queues + active list): modelled and tied only.  What IS proved: each per-sender
-    -- sub-queue is an UnboundedMailbox, i.e. refines the FIFO reservation queue in isolation
-    ∀ (ct tid : Nat) (c : UB.Cf) (cells : List Cell), UB.Inv ct c cells →
-      ∃ cells', UB.specStep cells (UB.stepEv c tid) = some cells' ∧ UB.Inv ct (stepCfg c tid) cells'
+    -- per-sender queues + active list.  (1) each per-sender sub-queue is an UnboundedMailbox: it refines the
+    -- FIFO reservation queue in isolation, and (2) inside the fair mailbox it is driven by UnboundedMailbox
+    -- steps only; (3) activation protocol: in every configuration reachable without a `guardMiss` step, a
+    -- sender with counted messages is active or about to be (re)checked.  The composite exactly-once statement
+    -- is FALSE of the code as it is (F9, F10); see design/C04.md for what is missing
+    (∀ (ct tid : Nat) (c : UB.Cf) (cells : List Cell), UB.Inv ct c cells →
+      ∃ cells', UB.specStep cells (UB.stepEv c tid) = some cells' ∧ UB.Inv ct (stepCfg c tid) cells') ∧
+    (∀ (s : Fair.Sh) (pc : Fair.PC) (k : Nat),
+      ((Fair.exec s pc).1.boxes k).mb = (s.boxes k).mb ∨
+      ∃ upc, pc = .ub k upc ∧ ((Fair.exec s pc).1.boxes k).mb = (Unbounded.exec (s.boxes k).mb upc).1) ∧
+    (∀ (progs : List (List Op)) (c : Cfg Fair.algo), FairInv.ReachNM (initCfg Fair.algo Fair.init progs) c →
+      ∀ k, (c.sh.boxes k).pending > 0 → (c.sh.boxes k).active = true ∨ FairInv.someoneChecks c k)
 
 
 
 /-- EVERY mailbox kind refines its documented sequential queue, in the sense of `Refines`
-(the fair mailbox only through its per-sender sub-queues; its composite is tied by the differential) -/
+(the fair mailbox: its per-sender sub-queues and its activation protocol; its composite exactly-once
+statement is refuted by F9/F10) -/
 theorem C04_all_refine : ∀ m : MB, Refines m := by
   intro m
   cases m with
@@ -670,7 +789,7 @@ theorem C04_all_refine : ∀ m : MB, Refines m := by
     have h := (intake_priority_order { cap := some cap, stable := true, lt } hsw progs c hr).2 x rest hp
     exact ⟨h.1, stable_priority_then_arrival { cap := some cap, stable := true, lt } rfl hsw progs c hr x rest hp⟩
   | fair =>
-    intro ct tid c cells h
-    exact unbounded_forward_simulation ct tid c cells h
+    exact ⟨fun ct tid c cells h => unbounded_forward_simulation ct tid c cells h,
+      fair_subqueue_frame, fair_activation_protocol⟩
 
 end GoaktVerif.C04
